@@ -55,6 +55,17 @@ func c02ColumnOwner(w *kernel.World, plan *kernel.Plan, rng *kernel.RNG) {
 		w.Violate("C02", "protect-succeeds", site, fmt.Sprintf("%q %v", run.ClientErr, run.ProxyErrs))
 		return
 	}
+	if got := run.Results[1].Rows[0]; len(got) == 5 {
+		for k, want := range vals {
+			cell := got[2+k]
+			if !mysql {
+				cell = decodeClientCell(17, 0, cell)
+			}
+			if string(cell) != want && string(got[2+k]) != want {
+				w.Violate("C02", "owner-reveals-own-column", site, fmt.Sprintf("column %s configured for the owner: the owner wrote %q and reads %.60q", cols[k].Name, want, got[2+k]))
+			}
+		}
+	}
 	// the other client reads, searches by the owner's columns (literal and parameter), reads again
 	read := Stmt{SQL: "SELECT id, plain, c1, c2, c3 FROM t1 WHERE id = 1"}
 	script := []Stmt{read,
@@ -79,6 +90,50 @@ func c02ColumnOwner(w *kernel.World, plan *kernel.Plan, rng *kernel.RNG) {
 		if bytes.Contains(r2.ToClient.Log, []byte(m)) {
 			w.Violate("C02", "other-identity-never-gets-plaintext", site, fmt.Sprintf("a connection of %s received %q, protected for the column's owner (client error %q)", reader, m, r2.ClientErr))
 			break
+		}
+	}
+	// the other client writes into the owner's columns: the values are protected for the owner, who reads them;
+	// the writer does not get them back in clear
+	vals2 := []string{"COLOWNER-WRITTEN-BY-B-c1-24680", "written.by.b@example.net", "COLOWNER-WRITTEN-BY-B-c3-13579"}
+	if cols[1].Token == "str" {
+		vals2[1] = "COLOWNER-WRITTEN-BY-B-c2-97531"
+	}
+	var ins2 Stmt
+	if mysql {
+		ins2 = myInsertStmt(names, 2, "p", vals2, cols, false, 0)
+	} else {
+		ins2 = insertStmt(names, 2, vals2, cols, false)
+	}
+	read2 := Stmt{SQL: "SELECT id, plain, c1, c2, c3 FROM t1 WHERE id = 2"}
+	r3 := pw.RunSession(reader, []Stmt{ins2, read2})
+	if w.Res.Cut {
+		return
+	}
+	if reader == stranger && r3.ClientErr == "" && len(r3.Results) == 2 && r3.Results[0].Err == "" {
+		for _, m := range vals2 {
+			if bytes.Contains(r3.ToDB.Log, []byte(m)) {
+				w.Violate("C02", "written-for-the-column-owner-is-protected", site, fmt.Sprintf("%q, written by %s into a column of %s, reached the database in clear", m, reader, owner))
+				break
+			}
+			if len(r3.Results[1].Rows) == 1 && bytes.Contains(bytes.Join(r3.Results[1].Rows[0], nil), []byte(m)) {
+				w.Violate("C02", "other-identity-never-gets-plaintext", site+"/own-write", fmt.Sprintf("%s reads back %q in clear from a column protected for %s", reader, m, owner))
+				break
+			}
+		}
+		r4 := pw.RunSession(owner, []Stmt{read2})
+		if w.Res.Cut {
+			return
+		}
+		if r4.ClientErr == "" && len(r4.Results) == 1 && len(r4.Results[0].Rows) == 1 && len(r4.Results[0].Rows[0]) == 5 {
+			for k, want := range vals2 {
+				cell := r4.Results[0].Rows[0][2+k]
+				if !mysql {
+					cell = decodeClientCell(17, 0, cell)
+				}
+				if string(cell) != want && string(r4.Results[0].Rows[0][2+k]) != want {
+					w.Violate("C02", "owner-reveals-own-column", site+"/written-by-another", fmt.Sprintf("column %s configured for the owner: %s wrote %q, the owner reads %.60q", cols[k].Name, reader, want, r4.Results[0].Rows[0][2+k]))
+				}
+			}
 		}
 	}
 	w.Probe("column-owner")
